@@ -115,7 +115,12 @@ func verifRunC09(c *verifsim.Ctx) {
 		}
 		// notices and warnings of various ages
 		for i := 0; i < c.Draw("nnotices", 3); i++ {
-			st.AddNotice(nil, state.WarningNotice, "k"+strconv.Itoa(c.Draw("nk", 4)), nil)
+			var nopts *state.AddNoticeOptions
+			if c.Draw("notice-repeat-after", 3) == 2 {
+				// (a repeat-after longer than the expiry must not keep the notice alive)
+				nopts = &state.AddNoticeOptions{RepeatAfter: time.Duration(1+c.Draw("notice-repeat-days", 40)) * 24 * time.Hour}
+			}
+			st.AddNotice(nil, state.WarningNotice, "k"+strconv.Itoa(c.Draw("nk", 4)), nopts)
 		}
 		for i := 0; i < c.Draw("nwarnings", 3); i++ {
 			st.Warnf("warning %d", c.Draw("wk", 4))
